@@ -84,6 +84,8 @@ impl File {
             Self::inplace_sync_call(move || {
                 let offset = file_inner.size.fetch_add(len, Ordering::SeqCst);
                 let (res, data) = c.create(offset);
+                #[cfg(pearl_verif)]
+                crate::verif::on_write_data(&file_inner.std_file, offset, &res)?;
                 Self::write_data(&file_inner.std_file, offset, res)?;
                 Ok(data)
             })
@@ -91,6 +93,8 @@ impl File {
             Self::background_sync_call(move || {
                 let offset = file_inner.size.fetch_add(len, Ordering::SeqCst);
                 let (res, data) = c.create(offset);
+                #[cfg(pearl_verif)]
+                crate::verif::on_write_data(&file_inner.std_file, offset, &res)?;
                 Self::write_data(&file_inner.std_file, offset, res)?;
                 Ok(data)
             })
@@ -109,6 +113,11 @@ impl File {
     }
 
     pub(crate) async fn write_append_all(&self, buf: Bytes) -> IOResult<()> {
+        #[cfg(pearl_verif)]
+        if let Err(e) = crate::verif::on_write_buf(&self.inner.std_file, self.size(), &buf) {
+            self.inner.size.fetch_add(buf.len() as u64, Ordering::SeqCst);
+            return Err(e);
+        }
         let file_inner = self.inner.clone();
         if Self::can_run_inplace(buf.len() as u64) {
             Self::inplace_sync_call(move || {
@@ -126,6 +135,8 @@ impl File {
 
     pub(crate) async fn write_all_at(&self, offset: u64, buf: Bytes) -> IOResult<()> {
         debug_assert!(offset + buf.len() as u64 <= self.size());
+        #[cfg(pearl_verif)]
+        crate::verif::on_write_buf(&self.inner.std_file, offset, &buf)?;
         let file_inner = self.inner.clone();
         if Self::can_run_inplace(buf.len() as u64) {
             Self::inplace_sync_call(move || file_inner.std_file.write_all_at(&buf, offset))
@@ -166,6 +177,8 @@ impl File {
         let size = self.size();
         Self::background_sync_call(
             move || {
+               #[cfg(pearl_verif)]
+               crate::verif::on_sync(&file_inner.std_file, size)?;
                file_inner.std_file.sync_all()?;
                file_inner.synced_size.fetch_max(size, Ordering::SeqCst);
                Ok(())
@@ -218,6 +231,15 @@ impl File {
         F: FnOnce() -> R + Send + 'static,
         R: Send + 'static,
     {
+        #[cfg(pearl_verif)]
+        let f = {
+            let guard = crate::verif::InflightGuard::new();
+            move || {
+                let r = f();
+                drop(guard);
+                r
+            }
+        };
         tokio::task::spawn_blocking(move || f())
             .await
             .expect("spawned blocking task failed")
@@ -249,7 +271,16 @@ impl File {
             panic!("File {:?} is locked", path.as_ref());
         }
 
+        #[cfg(pearl_verif)]
+        crate::verif::register_fd(file.as_raw_fd(), path.as_ref(), Self::verif_is_create(&setup))?;
         Self::from_tokio_file(file).await
+    }
+
+    #[cfg(pearl_verif)]
+    fn verif_is_create(setup: &impl Fn(&mut OpenOptions) -> &mut OpenOptions) -> bool {
+        // an options set that asks for `append` formats with `append: true` in its Debug output
+        let mut o = OpenOptions::new();
+        !format!("{:?}", setup(&mut o)).contains("append: true")
     }
 
     async fn from_tokio_file(file: TokioFile) -> IOResult<Self> {
